@@ -1,11 +1,12 @@
 SPECIFICATION Spec
 CONSTANTS
   MaxNodes = 4
+  Shape = "any"
   SubRanges = TRUE
   WithSkips = FALSE
   Engine = "any"
   ExcludeFinding = TRUE
   Bug = "none"
-  Emit = FALSE
+  Emit = TRUE
 INVARIANTS InvNoRepeat InvVerdict InvProgress EmitInv
 CHECK_DEADLOCK FALSE
